@@ -124,6 +124,92 @@ def drawing_for_model(program, placed):
                         start=[core.q(st[0]), core.q(st[1])], end=[core.q(en[0]), core.q(en[1])]))
     return out
 
+def tree_diff(a, b, path='$'):
+    """first place where the loaded tree `b` is not the written tree `a` (type and value): (path, loaded, kind, written)"""
+    num = lambda x: isinstance(x, (int, float)) and not isinstance(x, bool)
+    if num(a):
+        if not num(b):
+            return path, b, ('number_became_' + type(b).__name__), a
+        return None if float(a) == float(b) or (a != a and b != b) else (path, b, 'number_changed', a)
+    if type(a) is not type(b):
+        return path, b, f'{type(a).__name__}_became_{type(b).__name__}', a
+    if isinstance(a, dict):
+        if list(a.keys()) != list(b.keys()):
+            return path, sorted(b.keys()), 'keys_changed', sorted(a.keys())
+        for k in a:
+            d = tree_diff(a[k], b[k], f'{path}.{k}')
+            if d: return d
+        return None
+    if isinstance(a, list):
+        if len(a) != len(b): return path, len(b), 'length_changed', len(a)
+        for i, (x, y) in enumerate(zip(a, b)):
+            d = tree_diff(x, y, f'{path}[{i}]')
+            if d: return d
+        return None
+    return None if a == b else (path, b, 'value_changed', a)
+
+def loader_reads_document(text, fmt):
+    """the library's loader for `fmt` against the reference parser of that format"""
+    from CircuitCalculator import dump_load as generic
+    ref = json.loads(text)
+    try:
+        got = generic.deserializers[fmt](text)
+    except Exception as e:
+        return '$', repr(e), 'loader_raises', None
+    # circuit-relevant parts first (component values, user parameters, anchors), then the whole tree
+    try:
+        for i, c in enumerate(ref['circuit']['components']):
+            d = tree_diff(c, got['circuit']['components'][i], f'$.circuit.components[{i}]')
+            if d: return d
+        for i, e in enumerate(ref['simple_circuit']):
+            for k in ('_userparams', 'absanchors'):
+                d = tree_diff(e['values'][k], got['simple_circuit'][i]['values'][k], f'$.simple_circuit[{i}].values.{k}')
+                if d: return d
+    except (KeyError, IndexError, TypeError):
+        pass
+    return tree_diff(ref, got)
+
+# engineering values m·10^e: integer mantissas print as `1e-06`, `5e-05`, `1e+16` (no decimal point)
+def engineering_values(thorough=False):
+    mant = [1, 2, 5, 10, 4.7, 2.2, 3.3, 6.8, 1.5, 8.2] if thorough else [1, 2, 5, 10, 4.7]
+    vals = []
+    for e in range(-15, 19):
+        for m in mant:
+            vals.append(float(f'{m}e{e}'))
+    vals += [1e-4, 1e-5, 9.999e-5, 1e-7, 1e15, 1e16, 1e17, 1e22, 1.5e16, 123456789012345680.0, 0.0001, 100000.0, 1e-12, 2e-12]
+    seen = set(); out_ = []
+    for v in vals:
+        if v not in seen:
+            seen.add(v); out_.append(v)
+    return out_
+
+ENG_FIELDS = [('R', 'R', False), ('G', 'G', False), ('C', 'C', False), ('L', 'L', False), ('V', 'V', True), ('I', 'I', True),
+              ('Vac', 'V', True), ('Vac', 'w', False), ('Vac', 'phi', True), ('Iac', 'I', True), ('Iac', 'w', False), ('Iac', 'phi', True),
+              ('Vrect', 'V', True), ('Vrect', 'w', False), ('Vrect', 'phi', True), ('Irect', 'I', True), ('Z', 'Z', True),
+              ('Vc', 'V', True), ('Ic', 'I', True)]
+
+def engineering_programs(rng, values, per_drawing=6):
+    """drawings whose numeric fields (values, phases, frequencies) carry the engineering values,
+    every field of every persistable kind in turn"""
+    progs = []
+    cur = []
+    k = 0
+    for i, v in enumerate(values):
+        kind, field, signed_ok = ENG_FIELDS[(i + k) % len(ENG_FIELDS)]
+        vals = gd.random_vals(rng, kind, flags=False)
+        x = -v if (signed_ok and i % 3 == 2) else v
+        if field in ('Z',) or kind in ('Vc', 'Ic'):
+            vals[field] = complex(x, v if i % 2 else 0.0)
+        else:
+            vals[field] = x
+        j = len(cur)
+        cur.append(dict(kind=kind, name=f'{kind}{i}', vals=vals, rev=(i % 4 == 1), a=(j, 0), b=(j, 1), place='endpoints'))
+        if len(cur) == per_drawing:
+            progs.append(cur + [dict(kind='gnd', a=(0, 0))]); cur = []; k += 1
+    if cur:
+        progs.append(cur + [dict(kind='gnd', a=(0, 0))])
+    return progs
+
 def roundtrip_case(ctx, out, program, geom, origin, yaml_too=True):
     from CircuitCalculator.SimpleCircuit.DiagramTranslator import circuit_translator
     from CircuitCalculator.SimpleCircuit.DiagramParser import SchematicDiagramParser
@@ -160,10 +246,24 @@ def roundtrip_case(ctx, out, program, geom, origin, yaml_too=True):
             nxt = dl.deserialize(text, 'json')
             c = circuit_translator(nxt)
         except Exception as e:
+            bad = loader_reads_document(text, 'json') if 'text' in dir() else None
+            if bad is not None:
+                out.spec_fail(dict(op='roundtrip', fmt='json', symptom='document_misread', became=bad[2], part=('circuit' if '.circuit.' in bad[0] else 'userparams' if '_userparams' in bad[0] else 'other')),
+                              f'cycle {cycle}: the json loader reads {bad[0]} as {bad[1]!r} ({type(e).__name__}: {e})', desc,
+                              impl=dict(path=bad[0], loaded=repr(bad[1]), written=repr(bad[3]), exception=repr(e)), program=program, geom=geom)
+                return
             out.spec_fail(dict(op='roundtrip', fmt='json', symptom='raises', exc=c13.tag(e)),
                           f'cycle {cycle}: {type(e).__name__}: {e}', desc, impl=dict(exception=repr(e)), program=program, geom=geom)
             return
         impl_circuits.append(c)
+        # the loader of format 'json' must read the JSON document: same tree, numbers as numbers
+        if cycle == 1:
+            bad = loader_reads_document(text, 'json')
+            if bad is not None:
+                out.spec_fail(dict(op='roundtrip', fmt='json', symptom='document_misread', became=bad[2], part=('circuit' if '.circuit.' in bad[0] else 'userparams' if '_userparams' in bad[0] else 'other')),
+                              f'the json loader reads {bad[0]} as {bad[1]!r}', desc, impl=dict(path=bad[0], loaded=repr(bad[1]), written=repr(bad[3])),
+                              program=program, geom=geom)
+                return
         # correspondence: the model's undictify_element on the real saved document
         if ctx.driver is not None and cycle <= 2:
             doc = json.loads(text)
@@ -285,8 +385,9 @@ def declarative_case(ctx, out, desc, origin):
         out.count('direction:' + str(e.get('direction', '-')))
         out.count('place_after:' + ('yes' if 'place_after' in e else 'no'))
     impl_err = None; sch = None
+    work = copy.deepcopy(desc)           # the object handed to the library (twice)
     try:
-        sch = create_schematic(copy.deepcopy(desc))
+        sch = create_schematic(work)
     except errors.UnknownCircuitElement:
         impl_err = 'UnknownKind'
     except errors.MissingArgument:
@@ -337,6 +438,31 @@ def declarative_case(ctx, out, desc, origin):
         if impl_err == 'TypeError' and oriented and all(e.get('type') in DECL_CLASS for e in desc['elements']):
             out.spec_fail(dict(op='declarative', symptom='raises', exc='TypeError', type=oriented[0]['type'], has_direction=True),
                           f'a {oriented[0]["type"]} with a direction makes create_schematic raise TypeError', desc)
+        return
+    # frame: the caller's description is only read
+    if work != desc:
+        changed = next((i for i, (a, b) in enumerate(zip(work['elements'], desc['elements'])) if a != b), None)
+        lost = sorted(set(desc['elements'][changed]) - set(work['elements'][changed])) if changed is not None else []
+        out.spec_fail(dict(op='declarative', symptom='description_mutated', lost=lost),
+                      f'create_schematic changed the caller\'s description (element {changed}: keys {lost} removed)', desc,
+                      impl=dict(after=work))
+        return
+    # repeatability: the same description object builds the same drawing again
+    try:
+        sch2 = create_schematic(work)
+        rep = None
+        if len(sch2.elements) != len(sch.elements):
+            rep = 'element count'
+        else:
+            for i, (a, b) in enumerate(zip(sch.elements, sch2.elements)):
+                for key in ('start', 'end'):
+                    pa, pb = a.absanchors[key], b.absanchors[key]
+                    if abs(pa[0] - pb[0]) > 1e-9 or abs(pa[1] - pb[1]) > 1e-9:
+                        rep = rep or f'element {i} {key} anchor {tuple(pa)} then {tuple(pb)}'
+    except Exception as e:
+        rep = f'second call raises {type(e).__name__}: {e}'
+    if rep is not None or work != desc:
+        out.spec_fail(dict(op='declarative', symptom='not_repeatable'), f'the second create_schematic of the same description differs: {rep}', desc)
         return
     out.nontrivial(('decl', tuple(sorted({e['type'] for e in desc['elements']})), tuple(sorted({e.get('direction', '-') for e in desc['elements']})),
                     any('place_after' in e for e in desc['elements'])))
@@ -398,6 +524,14 @@ def exhaustive_descriptions():
 
 # former failing inputs (findings 5 and 6, repaired by f6acf70 / 503c9e5): must pass now, reported again on a revert
 DECL_CORPUS = [
+    dict(unit=3, elements=[{'type': 'voltage_source', 'V': 5.0, 'name': 'V1', 'direction': 'up', 'length': 2},
+                           {'type': 'resistor', 'R': 10.0, 'name': 'R1', 'direction': 'right', 'length': 1.5},
+                           {'type': 'capacitor', 'C': 1e-06, 'name': 'C1', 'direction': 'down', 'length': 2},
+                           {'type': 'line', 'direction': 'left', 'length': 1.5},
+                           {'type': 'resistor', 'R': 22.0, 'name': 'R2', 'direction': 'right', 'length': 3, 'place_after': 'R1'},
+                           {'type': 'inductance', 'L': 1e-05, 'name': 'L1', 'direction': 'down', 'length': 2},
+                           {'type': 'line', 'direction': 'left', 'length': 3},
+                           {'type': 'ground', 'place_after': 'C1'}]),
     dict(unit=5, elements=[{'type': 'voltage_source', 'V': 1.0, 'name': 'U1', 'reverse': True, 'direction': 'up'},
                            {'type': 'node', 'name': 'a'},
                            {'type': 'resistor', 'name': 'R3', 'R': 30.0, 'direction': 'right'},
@@ -428,6 +562,18 @@ def run(ctx, out):
                 'direction × length × place_after; non-trivial = a drawing that can be saved / a description that builds; '
                 'distinct by (kind set, flag set, reversal set) resp. (type set, direction set, placement)')
     rng = ctx.rng('c15')
+    # engineering values in every numeric field (values, phases, frequencies)
+    ev = engineering_values(thorough=not ctx.quick)
+    erng = ctx.rng('c15', 'engineering')
+    if ctx.quick:
+        must = [1e-06, 1e-09, 5e-05, 1e-05, 0.0001, 1e-07, 2e-12, 1e16, 1e15, 1e22, 1e-15, 1e18]
+        rest = [v for v in ev if v not in must]
+        erng.shuffle(rest)
+        ev = must + rest[:60]
+    for prog in engineering_programs(erng, ev):
+        if ctx.time_left() < 30: out.notes.append('engineering-value stream cut by budget'); break
+        out.count('engineering_values', sum(1 for s_ in prog if s_['kind'] != 'gnd'))
+        roundtrip_case(ctx, out, prog, dict(gd.IDENT, unit=4.0), 'engineering', yaml_too=False)
     # per kind × reversal × flags: a minimal drawing
     for k in gd.PERSISTABLE:
         for rev in (False, True):
